@@ -17,10 +17,22 @@ CLAIMED = {
                 text="Seeded search: generated well-formed files (per-format grammar incl. non-canonical spellings, '.' placeholders, CRLF, missing final newline, gzip members) are parsed whole and under sampled / swept chunk schedules; every column of every batch is compared with the value an independent spec-level model assigns to the text. Sampling over bounded files (<= 14 records).",
                 note="Trusts the reference model bnpsim/models/text.py (plain int()/float()/split; cross-checked against the repo's example files in the self-test) and SimFS.",
                 tech=TECH + "store-model oracle (generated records) evaluated on every chunk-schedule-induced batch composition"),
+    "C12": dict(engine="streamsim", cat="exploration", ref="§4 C12",
+                text="Seeded search over (genome of <= 4 contigs incl. prefix/underscore names, sequence of contig groups in any order with unknown/ignored names, chunking cut set, consumer pull pattern, PYTHONHASHSEED): conservation oracle — a completed evaluation delivered every input entry under its own contig in genome order, otherwise an error was raised. 17 library-driven consumers (compute single/tuple/dict, exhaustive for, writer, MultiStream, forbes/jaccard, left_join).",
+                note="Judges only library-driven pulling (a caller's own zip/break is a reach probe). Reference for numeric consumers is the same public function on the per-contig dict route.",
+                tech=TECH + "contig-order x cut-set x consumer-pull-pattern schedule with sampled PYTHONHASHSEED per worker; entry-conservation oracle over the delivered history"),
+    "C15": dict(engine="iosim", cat="fault_enumeration", ref="§4 C15",
+                text="Fault = corruption of stored bytes: for each sampled well-formed file one violation of each listed class (record marker, FASTQ '+', non-numeric digit, foreign strand symbol, fewer/more columns, torn tail) is injected at a drawn record position; then all chunk sizes from the largest entry to size+2 x lazy/eager x plain/gzip are enumerated. Every read touching the affected data must raise; FormatException.line_number must lie in the offending record and be identical over the whole schedule.",
+                note="The model's strict validator decides whether the corrupted file is malformed and which line offends; outcomes outside the classes the property lists (e.g. truncated FASTQ record) are counted, not judged.",
+                tech=TECH + "stored-byte corruption / torn-tail fault injection by violation class x record position, chunk-size sweep, must-raise + line-number-invariance oracle"),
+    "C17": dict(engine="iosim", cat="exploration", ref="§4 C17",
+                text="Seeded search over FASTA files (1..8 records, any wrap width, full/short/one-base last lines, descriptions, CRLF and missing final newline at low weight) on simulated storage; index built by the library under a small chunk knob (multi-chunk offset accumulation) or supplied by an independent faidx model; every interval of short records enumerated, line-break-biased intervals sampled; .fai rows, whole contigs, interval batches (plain and string-encoded fast path), contig lengths and the Genome.from_file route compared with the model. One-shot EIO in a minority of runs.",
+                note="Trusts bnpsim/models/fai.py (cross-checked against the shipped small_genome.fa.fai) and SimFS.",
+                tech=TECH + "chunk-knob-perturbed index construction + random-access seek/read over SimFS + one-shot EIO; substring oracle from an independent faidx model"),
 }
 
 _P = "check designed in DESIGN.md (simulated) but not built yet at this commit; not claimed until its check exists"
-PENDING = {k: _P for k in ["C03", "C04", "C05", "C11", "C12", "C15", "C16", "C17", "C20"]}
+PENDING = {k: _P for k in ["C03", "C04", "C05", "C11", "C16", "C20"]}
 
 NOT_APPLICABLE = {
     "C06": "pure function of (byte, alphabet): no storage, stream, history or shared state, so no scheduler or fault decision can change the outcome (DESIGN §4 C06)",
